@@ -4,6 +4,7 @@ import (
 	"errors"
 	"io"
 	"net"
+	"os"
 	"sync"
 	"time"
 )
@@ -15,15 +16,23 @@ type halfPipe struct {
 	mu        sync.Mutex
 	cond      *sync.Cond
 	buf       []byte
-	closed    bool  // no more data will arrive; reads drain then return EOF
-	waiting   bool  // a reader is blocked on an empty buffer
-	total     int64 // octets ever written
-	failAfter int64 // writes fail once total reaches this (-1 = never)
-	stall     bool  // writes block (peer stopped reading)
+	closed    bool      // no more data will arrive; reads drain then return EOF
+	waiting   bool      // a reader is blocked on an empty buffer
+	total     int64     // octets ever written
+	failAfter int64     // writes fail once total reaches this (-1 = never)
+	stall     bool      // writes block (peer stopped reading)
+	stallAt   int64     // writes block once total reaches this (-1 = never): the peer reads that much and then stops
+	wdl       time.Time // write deadline; it only matters to a write that is blocked
+	manual    bool      // deadlines pass when expire is called, not with the clock
+	expireGen int       // number of expire calls that found a deadline set
+	wdlGen    int       // expireGen when the current deadline was set
+	blocked   int       // writers blocked right now
+	// the first octets of the write that blocked first
+	blockedHead []byte
 }
 
 func newHalf() *halfPipe {
-	h := &halfPipe{failAfter: -1}
+	h := &halfPipe{failAfter: -1, stallAt: -1}
 	h.cond = sync.NewCond(&h.mu)
 	return h
 }
@@ -33,11 +42,34 @@ var errPipeClosed = errors.New("memconn: closed")
 func (h *halfPipe) write(p []byte) (int, error) {
 	h.mu.Lock()
 	defer h.mu.Unlock()
-	for h.stall && !h.closed {
+	taken := 0
+	head := p[:minInt(len(p), 9)]
+	for !h.closed && (h.stall || (h.stallAt >= 0 && h.total+int64(len(p)) > h.stallAt)) {
+		if !h.stall && h.total < h.stallAt {
+			// the peer still reads this much
+			n := int(h.stallAt - h.total)
+			h.buf = append(h.buf, p[:n]...)
+			h.total += int64(n)
+			taken += n
+			p = p[n:]
+			h.cond.Broadcast()
+		}
+		if h.deadlinePassed() {
+			return taken, os.ErrDeadlineExceeded
+		}
+		h.blockedHead = append(h.blockedHead[:0], head...)
+		h.blocked++
 		h.cond.Wait()
+		h.blocked--
 	}
 	if h.closed {
-		return 0, errPipeClosed
+		return taken, errPipeClosed
+	}
+	if taken > 0 {
+		h.buf = append(h.buf, p...)
+		h.total += int64(len(p))
+		h.cond.Broadcast()
+		return taken + len(p), nil
 	}
 	if h.failAfter >= 0 && h.total+int64(len(p)) > h.failAfter {
 		n := h.failAfter - h.total
@@ -53,6 +85,50 @@ func (h *halfPipe) write(p []byte) (int, error) {
 	h.total += int64(len(p))
 	h.cond.Broadcast()
 	return len(p), nil
+}
+
+// deadlinePassed: a write deadline only matters to a write that is blocked. With manual time (the scripted
+// client runs: timeouts are events of the script, not of the clock) it passes when the script says so (expire);
+// otherwise when the clock says so.
+func (h *halfPipe) deadlinePassed() bool {
+	if h.wdl.IsZero() {
+		return false
+	}
+	if h.manual {
+		return h.expireGen > h.wdlGen
+	}
+	return !time.Now().Before(h.wdl)
+}
+
+// pendingDeadline: somebody is blocked in a write that has a deadline which has not passed yet.
+func (h *halfPipe) pendingDeadline() bool {
+	h.mu.Lock()
+	defer h.mu.Unlock()
+	return h.blocked > 0 && !h.wdl.IsZero() && !h.deadlinePassed()
+}
+
+// expire lets the current write deadline pass (manual time).
+func (h *halfPipe) expire() {
+	h.mu.Lock()
+	if !h.wdl.IsZero() {
+		h.expireGen++
+	}
+	h.cond.Broadcast()
+	h.mu.Unlock()
+}
+
+func (h *halfPipe) setManualTime(v bool) {
+	h.mu.Lock()
+	h.manual = v
+	h.mu.Unlock()
+}
+
+// blockedOn: how many writers are blocked, and the first octets (a frame header) of what the first of them
+// was trying to write.
+func (h *halfPipe) blockedOn() (int, []byte) {
+	h.mu.Lock()
+	defer h.mu.Unlock()
+	return h.blocked, append([]byte(nil), h.blockedHead...)
 }
 
 func (h *halfPipe) read(p []byte) (int, error) {
@@ -98,6 +174,49 @@ func (h *halfPipe) setStall(v bool) {
 	h.mu.Unlock()
 }
 
+// setStallAt: the peer reads n more octets and then stops reading (n < 0: it reads again).
+func (h *halfPipe) setStallAt(n int64) {
+	h.mu.Lock()
+	if n < 0 {
+		h.stallAt, h.stall = -1, false
+	} else {
+		h.stallAt = h.total + n
+	}
+	h.cond.Broadcast()
+	h.mu.Unlock()
+}
+
+// blockedWriters is not known to the pipe; stalled reports whether a write would block now.
+func (h *halfPipe) stalled() bool {
+	h.mu.Lock()
+	defer h.mu.Unlock()
+	return !h.closed && (h.stall || (h.stallAt >= 0 && h.total >= h.stallAt))
+}
+
+// setWriteDeadline wakes the blocked writers up when the deadline passes.
+func (h *halfPipe) setWriteDeadline(t time.Time) {
+	h.mu.Lock()
+	h.wdl = t
+	h.wdlGen = h.expireGen
+	h.cond.Broadcast()
+	h.mu.Unlock()
+	if !t.IsZero() {
+		if d := time.Until(t); d > 0 {
+			time.AfterFunc(d+time.Millisecond, func() {
+				h.mu.Lock()
+				h.cond.Broadcast()
+				h.mu.Unlock()
+			})
+		}
+	}
+}
+
+func (h *halfPipe) unread() int {
+	h.mu.Lock()
+	defer h.mu.Unlock()
+	return len(h.buf)
+}
+
 func (h *halfPipe) setFailAfter(n int64) {
 	h.mu.Lock()
 	h.failAfter = n
@@ -133,11 +252,17 @@ func (c *memConn) Close() error {
 	c.out.close()
 	return nil
 }
-func (c *memConn) LocalAddr() net.Addr              { return &net.TCPAddr{IP: net.IPv4(127, 0, 0, 1), Port: 1} }
-func (c *memConn) RemoteAddr() net.Addr             { return &net.TCPAddr{IP: net.IPv4(127, 0, 0, 1), Port: 2} }
-func (c *memConn) SetDeadline(time.Time) error      { return nil }
-func (c *memConn) SetReadDeadline(time.Time) error  { return nil }
-func (c *memConn) SetWriteDeadline(time.Time) error { return nil }
+func (c *memConn) LocalAddr() net.Addr  { return &net.TCPAddr{IP: net.IPv4(127, 0, 0, 1), Port: 1} }
+func (c *memConn) RemoteAddr() net.Addr { return &net.TCPAddr{IP: net.IPv4(127, 0, 0, 1), Port: 2} }
+func (c *memConn) SetDeadline(t time.Time) error {
+	c.out.setWriteDeadline(t)
+	return nil
+}
+func (c *memConn) SetReadDeadline(time.Time) error { return nil }
+func (c *memConn) SetWriteDeadline(t time.Time) error {
+	c.out.setWriteDeadline(t)
+	return nil
+}
 
 // parseFrames splits complete frames off the front of b.
 type rawFrame struct {
